@@ -30,14 +30,14 @@ SCHEDS = ["naive", "priority", "priority", "priority-pool", "overbook", "starter
 
 
 def plan(tier):
-    return [{"kind": "hypothesis", "examples": 2000 if tier == "quick" else 60000}]
+    return [{"kind": "hypothesis", "examples": 2000 if tier == "quick" else 25000}]
 
 
 @st.composite
 def gen_case(draw, tier):
     sched = draw(st.sampled_from(["priority", "naive", "priority-pool", "overbook"]))
     tps = draw(st.sampled_from([10, 5, 20, 2, 1]))
-    nticks = draw(st.sampled_from([200, 400, 100, 600] if tier == "quick" else [400, 1000, 2000]))
+    nticks = draw(st.sampled_from([200, 400, 100, 600] if tier == "quick" else [400, 1000]))
     a = draw(st.integers(0, 10))
     b = draw(st.integers(0, 10 - a))
     params = {"scheduler_algo": sched, "ticks_per_second": tps, "duration": (nticks + 0.5) / tps,
